@@ -104,6 +104,11 @@ func TestC11_P_Sizes(t *testing.T) {
 		if rapid.IntRange(0, 4).Draw(t, "pieceWrites") == 0 {
 			st.PieceWrites = rapid.SampledFrom([]int{1, 7, 64, 512}).Draw(t, "pieceSize")
 		}
+		if (kind == "file" || kind == "twice") && rapid.IntRange(0, 5).Draw(t, "rawEnvelope") == 0 {
+			// a link system whose raw codec frames the leaf blocks: sizes are about encoded lengths, not content lengths
+			st.RawEnvelope = rapid.SampledFrom([]int{1, 8, 100}).Draw(t, "envelopeLen")
+			ev.Count("raw-envelope", 1)
+		}
 		var root cid.Cid
 		var size uint64
 		var err error
@@ -300,5 +305,25 @@ func TestC11_R_Basics(t *testing.T) {
 	}
 	if _, err := verifySizes(st, root, nil); err != nil {
 		t.Fatalf("C11 width 174: %v", err)
+	}
+}
+
+// F22 (fixed): the empty file's leaf was written with a plain Store and its size returned as a literal 0; with a raw codec
+// that frames its blocks the stored block is not empty.
+func TestC11_R_F22_EmptyFileThroughFramingRawCodec(t *testing.T) {
+	for _, env := range []int{0, 1, 8} {
+		st := NewStore()
+		st.RawEnvelope = env
+		root, size, err := buildFile(st, nil, "size-16", 3)
+		if err != nil {
+			t.Fatal(err)
+		}
+		want, err := st.CumulativeSize(root, nil)
+		if err != nil {
+			t.Fatal(err)
+		}
+		if size != want {
+			t.Fatalf("C11 F22: empty file through a link system whose raw codec adds %d bytes of framing: builder returned size %d, the stored DAG has %d bytes", env, size, want)
+		}
 	}
 }
